@@ -3,6 +3,10 @@
 import json, subprocess
 ALL = ["C%02d" % i for i in range(1, 21)]
 CHECKS = {
+ "C05": dict(cat="model_checking", ref="§5 C05",
+   text="KVRange.tla defines range/listing results from the point-read semantics of KVRead.tla and DeleteRange as an action; TLC evaluates every generated case (DAG shape x joint placement of three prefix-related keys x optional DeleteRange) and checks the DeleteRange claims (exactly the interval's keys vanish at the node and its descendants; ancestors, siblings and other keys unchanged). Each case is replayed on the real server: all 21 intervals over 6 endpoints at every version through keyrange, keyrangevalues (protobuf/json/tar), keys, keyvalues and the store's GetRange/KeysInRange/SendKeysInRange/ProcessRange, compared with TLC's expected point reads filtered by the interval; DeleteRange is executed through the store API.",
+   note="Shapes: all with 3 and 4 nodes (+300 seeded 5-node shapes thorough); joint placements are seeded samples (16/40 per shape). Intervals containing a key in merge conflict are skipped.",
+   tech="TLC evaluation of KVRange.tla on generated cases + replay into the real server (HTTP and store API)"),
  "C01": dict(cat="model_checking", ref="§5 C01, §4.2",
    text="KVRead.tla defines the read semantics (unsuperseded live candidate among ancestors) and a transcription of findMatch; KVShapes.tla makes TLC enumerate every DAG shape up to the bound (all ordered parent tuples incl. 3-parent merges and merges of ancestors) and evaluate the expected read of every placement of value/tombstone/nothing at every node. Every (shape, placement, queried node) is replayed on the real server: DAG built through the HTTP API, entries written under one key per placement before each node is committed, GET/HEAD key at every node, plus synthetic key sets in shuffled orders through GetBestKeyVersion/VersionedKeyValue.",
    note="Trusts TLC and the bound (all shapes with <=5 nodes quick; 6 nodes with 2-parent merges thorough). Only the keyvalue datatype's point reads are driven; other datatypes share the resolver.",
